@@ -105,7 +105,8 @@ v('value-drops-blob','C07.exhaustive','key.go','''	case v1proto.Type_BLOB:
 v('insert-without-pk-test','C07.insert-guards','vtable_common.go','''	if ok && (!old.Deleted || !ot.Add(old.DeleteUpdateOffset.AsDuration()).Before(t)) {
 		return 0, ErrS3DBConstraintPrimaryKey
 	}
-''','')
+''','''	_ = ok
+''')
 v('int-text-equal','C07.order-layer','key.go','''			return order(flip, compareIntReal(v.Int, v2.Real))
 		}
 		return order(flip, -1)''','''			return order(flip, compareIntReal(v.Int, v2.Real))
@@ -169,6 +170,13 @@ vm('random-nonce','C18.deterministic',[('kv/crypto.go','''	"encoding/base64"''',
 v('undocumented-option','C20.options','vtable_common.go','''		case "s3_prefix":''','''		case "s3_region":
 			table.S3Options.Endpoint = table.S3Options.Endpoint
 		case "s3_prefix":''')
+
+v('join-later-tombstone-wins','C17.join-table','kv/crdt/value.go','''	if newValue.TombstoneSinceEpochNanos < oldValue.TombstoneSinceEpochNanos {''','''	if newValue.TombstoneSinceEpochNanos > oldValue.TombstoneSinceEpochNanos {''')
+v('update-skips-join','C17.local-update','kv/internal/crdt/crdt.go','''		err = c.Mast.Insert(ctx, key, winner)''','''		_ = winner
+		err = c.Mast.Insert(ctx, key, cv)''')
+v('diff-raw-values','C17.diff-visible','kv/kv.go','''			return f(key, myValue, fromValue)''','''			return f(key, addedValue, removedValue)''')
+v('purge-with-clock','C10.one-cutoff,C02.clock','vtable_common.go','''	err = db.RemoveTombstones(ctx, beforeTime)''','''	err = db.RemoveTombstones(ctx, time.Now())''')
+v('rows-cross-pairing','C01.rows-pairing','vtable_common.go','''				res.ColumnValues[k] = adj(t2, v2, outTime)''','''				res.ColumnValues[k] = adj(t1, v2, outTime)''')
 
 outdir=HERE+'/checker/selftest/variants'
 for f in os.listdir(outdir):
